@@ -341,6 +341,7 @@ Bound(par) ==
       [] OTHER -> par.timeout_us + par.delay_us * (par.max - par.min + 1) + par.poll_us
 
 C08_run(H) ==
+    /\ ~H.out.hung               \* (the call was still stuck after the real-clock limit, or in a busy loop that only the harness ended)
     /\ H.out.t <= Bound(H.par)
     /\ (H.cancel >= 0 /\ H.cancel < H.out.t) =>
           /\ H.out.t <= H.cancel + H.par.poll_us + H.par.delay_us
